@@ -76,9 +76,17 @@ pub fn run_c09(cfg: &ShardCfg, out: &mut ShardOut) {
                 ok = false;
                 break;
             }
-            if s.g.keys() != s.m.keys() {
-                let snap = s.g.snapshot();
-                s.m.resync(&snap);
+            match guarded(|| s.g.keys()) {
+                Ok(k) => {
+                    if k != s.m.keys() {
+                        let snap = s.g.snapshot();
+                        s.m.resync(&snap);
+                    }
+                }
+                Err(_) => {
+                    ok = false;
+                    break;
+                }
             }
         }
         if !ok {
@@ -100,8 +108,9 @@ pub fn run_c09(cfg: &ShardCfg, out: &mut ShardOut) {
             out.counters.inc("save-size-mismatch");
         }
         // control: the complete image loads
+        let keys_now = guarded(|| s.g.keys()).unwrap_or_default();
         match guarded(|| load_graph(n, &path).map(|g| g.keys())) {
-            Ok(Ok(k)) if k == s.g.keys() => out.counters.inc("complete-image-loads"),
+            Ok(Ok(k)) if k == keys_now => out.counters.inc("complete-image-loads"),
             _ => {
                 out.counters.inc("complete-image-does-not-load");
                 continue;
